@@ -49,8 +49,9 @@ Definition fnorm (b : N) : N := if f_is_zero b then 0%N else b.
 (* Go `==` on float64: false when an operand is NaN; 0.0 == -0.0; otherwise equality of the bits *)
 Definition feq (a b : N) : bool := (negb (f_is_nan a) && negb (f_is_nan b) && (fnorm a =? fnorm b))%N.
 
-Definition neg_max_float : N := 0xffefffffffffffff%N. (* math.Float64bits(-math.MaxFloat64) *)
-Definition max_float : N := 0x7fefffffffffffff%N.     (* math.Float64bits(math.MaxFloat64) *)
+(* the bounds of the unbounded Float type (floattype.go:26): -Inf and +Inf *)
+Definition neg_max_float : N := 0xfff0000000000000%N. (* math.Float64bits(math.Inf(-1)) *)
+Definition max_float : N := 0x7ff0000000000000%N.     (* math.Float64bits(math.Inf(1)) *)
 
 (* ------------------------------------------------------------------------------------------ *)
 (* sort.Strings followed by the removal of adjacent duplicates (types.go:604 appendSortedKeys);
